@@ -57,3 +57,4 @@ func verifAt(b []byte, i int) uint8
 func verifAtU32(s []uint32, i int) uint32
 func verifWant(id string)
 func verifRange(name string, lo, hi int) int
+func verifTimerResets(t *time.Timer) int
